@@ -14,6 +14,7 @@ package local
 import (
 	"encoding/json"
 	"sort"
+	"sync"
 	"testing"
 
 	"github.com/hashicorp/consul/agent/netutil"
@@ -21,10 +22,15 @@ import (
 	"pgregory.net/rapid"
 )
 
-func init() {
-	// the state store asks netutil whether the agent is dual-stack when it assigns virtual IPs; without the stub that is
-	// an HTTP call to a local agent (upstream's state tests stub it the same way)
-	netutil.GetAgentBindAddrFunc = netutil.GetMockGetAgentBindAddrFunc("0.0.0.0")
+var verifC16StubOnce sync.Once
+
+// verifC16Stub: the state store asks netutil whether the agent is dual-stack when it assigns virtual IPs; without the
+// stub that is an HTTP call to a local agent (upstream's state tests stub it the same way). Once per process, and only
+// when a C16 test actually runs.
+func verifC16Stub() {
+	verifC16StubOnce.Do(func() {
+		netutil.GetAgentBindAddrFunc = netutil.GetMockGetAgentBindAddrFunc("0.0.0.0")
+	})
 }
 
 var (
@@ -246,6 +252,7 @@ func verifC16Enumerate(f verifkit.F, c *verifkit.Case, rec *verifkit.Rec, cfg ve
 }
 
 func TestVerifC16Enumerate(t *testing.T) {
+	verifC16Stub()
 	rec := verifkit.For("C16")
 	defer rec.Flush()
 	maxRounds := verifkit.EnvInt("VERIF_C16_ROUNDS", 4)
@@ -262,6 +269,7 @@ func TestVerifC16Enumerate(t *testing.T) {
 // TestVerifC16Multi: several faults per run; rules address an exact RPC of the fault-free run or every RPC that
 // carries an entity, fire once or persistently, in one sync op or in all of them.
 func TestVerifC16Multi(t *testing.T) {
+	verifC16Stub()
 	rec := verifkit.For("C16")
 	defer rec.Flush()
 	maxRounds := verifkit.EnvInt("VERIF_C16_ROUNDS_MULTI", 5)
@@ -364,6 +372,7 @@ func TestVerifC16Multi(t *testing.T) {
 // TestVerifC16Replay re-executes saved cases without rapid: ops = cfg op, scenario ops, then (optionally) the fault
 // rules. Without fault rules the whole single-fault enumeration of the scenario is repeated.
 func TestVerifC16Replay(t *testing.T) {
+	verifC16Stub()
 	rec := verifkit.For("C16")
 	defer rec.Flush()
 	for _, path := range verifkit.ReplayFiles("C16") {
